@@ -108,3 +108,52 @@ func multiFileJournal() (root, a, b []jr.Dir) {
 	}
 	return
 }
+
+// diamondSchedules: a file that is included from two files. Under every loader schedule
+// within the deviation bound the command must give the outcome of the default schedule,
+// and every census string must occur in its output exactly `times` times (a file that is
+// loaded twice shows up as duplicated output, or as different training data).
+func diamondSchedules(e *core.Env, drv *core.Driver, prop, name string, files map[string]string, args []string, census []string, times int) {
+	drv.Files(files)
+	want := drv.Run(nil, args...)
+	if ab := want.Abnormal(); ab != "" || want.Exit != 0 {
+		e.Violation(prop+":abnormal:diamond", ab+want.Stderr, multiFileCase{MultiFile: true, Files: files, Args: args}, nil)
+		return
+	}
+	bounds := core.Pick(e, core.Bounds{Preempt: 1, Free: 2, Total: 2}, core.Bounds{Preempt: 2, Free: 2, Total: 3})
+	x := core.Explorer{Bounds: bounds, NoMap: true, Cache: true, MaxExec: core.Pick(e, 60000, 600000), Stop: e.Expired}
+	var key, detail string
+	var picks []int
+	st := x.Explore(func(c *core.Ctx) {
+		o := drv.Run(c, args...)
+		if c.Pruned || key != "" {
+			return
+		}
+		switch {
+		case o.Abnormal() != "":
+			key, detail, picks = prop+":abnormal:diamond", o.Abnormal(), c.Picks()
+		case o.Exit != want.Exit || o.Stdout != want.Stdout:
+			key, detail, picks = prop+":schedule-dependent:diamond", fmt.Sprintf("this schedule:\n%s%s\ndefault schedule:\n%s", o.Stdout, o.Stderr, want.Stdout), c.Picks()
+		default:
+			for _, s := range census {
+				if n := strings.Count(o.Stdout, s); n != times {
+					key, detail, picks = prop+":census:diamond", fmt.Sprintf("%s occurs %d times in the output, want %d\n%s", s, n, times, o.Stdout), c.Picks()
+					break
+				}
+			}
+		}
+	}, func(c *core.Ctx) bool { return key == "" })
+	e.AddStats(st)
+	e.Add("evaluations", st.Executions)
+	e.Add("schedules_explored_diamond", st.Executions-st.Pruned)
+	e.SetBound("diamond_deviations_"+name, st.BoundCompleted)
+	e.Note("diamond %s: %d schedules (%d pruned by state cache), deviation bound completed %d", name, st.Executions, st.Pruned, st.BoundCompleted)
+	if key != "" {
+		cs := multiFileCase{MultiFile: true, Files: files, Args: args, Want: want.Key(), Picks: picks}
+		e.Violation(key, detail+"\ncommand: knut "+strings.Join(args, " "), cs, func() bool {
+			drv.Files(files)
+			o := drv.Run(core.NewReplayCtxNoMap(picks, false), args...)
+			return o.Abnormal() != "" || o.Key() != want.Key()
+		})
+	}
+}
